@@ -446,7 +446,11 @@ impl Driver {
     }
 
     pub fn flush(&mut self) -> bool {
+        #[cfg(compio_verif)]
+        crate::verif::point("flush:enter");
         let succeed = self.submit_auto(Some(Duration::ZERO), false).is_ok();
+        #[cfg(compio_verif)]
+        crate::verif::point("flush:after-submit");
         // If submission failed, return true to let the driver wake up immediately.
         !succeed | self.notifier.reset()
     }
@@ -460,7 +464,11 @@ impl Driver {
 
         trace!("start polling");
 
+        #[cfg(compio_verif)]
+        crate::verif::point("poll:before-reset");
         let need_wait = !self.notifier.reset();
+        #[cfg(compio_verif)]
+        crate::verif::point("poll:after-reset");
 
         if self.flags.contains(DriverFlags::NEED_PUSH_NOTIFIER) {
             #[allow(clippy::useless_conversion)]
@@ -474,11 +482,21 @@ impl Driver {
             self.flags.remove(DriverFlags::NEED_PUSH_NOTIFIER);
         }
 
+        #[cfg(compio_verif)]
+        crate::verif::point("poll:before-wait");
         self.submit_auto(timeout, need_wait)?;
+        #[cfg(compio_verif)]
+        crate::verif::point("poll:after-wait");
 
         self.notifier.set_awake();
+        #[cfg(compio_verif)]
+        crate::verif::point("poll:after-set-awake");
         self.poll_entries();
+        #[cfg(compio_verif)]
+        crate::verif::point("poll:after-entries");
         self.notifier.set_awake();
+        #[cfg(compio_verif)]
+        crate::verif::point("poll:exit");
 
         Ok(())
     }
